@@ -23,7 +23,7 @@ def shards(tier):
 def floors(tier):
     return {"roundtrips_ok": 3000, "chiral_centres": 5000, "chiral.opens_ring": 500, "chiral.closes_ring": 500,
             "chiral.opens_and_closes": 100, "chiral.first_atom": 50, "chiral.with_H": 300, "chiral.multi_ring>=2": 200,
-            "chiral.ring_digit_after_branch": 200, "marks.chain": 500, "marks.ring_open_end": 100, "marks.ring_close_end": 100, "dataset_stereo_ok": 100, "stereo_ring_family_ok": 60}
+            "chiral.ring_digit_after_branch": 200, "marks.chain": 500, "marks.ring_open_end": 100, "marks.ring_close_end": 100, "dataset_stereo_ok": 100, "stereo_ring_family_ok": 60, "encoder_flag_variants": 5000, "repeated_translations": 2000}
 
 
 def _classify(ctx, mi):
